@@ -20,7 +20,7 @@ EXHAUSTIVE_NOTE = G.EXHAUSTIVE_NOTE
 ASSUMPTIONS = G.ASSUMPTIONS
 TRUSTED = G.TRUSTED
 ALLOWED_AXIOMS = []
-LEVEL_TEXT = ('proof (partial): no_lost_wakeup, owner_can_finish, prompt, rescue_within_60, no_deadlock, retry_measure, bounded_work, maximal_trace_done_or_timer / _all_done, ok_C05_sound + 4 converse theorems proved for all event '
+LEVEL_TEXT = ('proof (partial): no_lost_wakeup, owner_can_finish, prompt, rescue_within_60, no_deadlock, retry_measure, bounded_work, maximal_trace_done_or_timer / _all_done, finite_work_then_done, ok_C05_sound + 4 converse theorems proved for all event '
               'lists accepted by the model Cache.step (invariants CacheInv.Inv + CacheLive.LInv); termination under fair '
               'scheduling is reduced to these and the last inference is left on paper; model tied to the code by '
               'differential correspondence, promptness / rescue / no-hang decided on every observed trace by ok_C05')
